@@ -26,6 +26,10 @@ pub trait Latch<P>: Deref<Target = P> {}
 
 impl<P> ReadLatch<P> {
     pub(crate) fn new(lock: &Arc<RwLock<P>>) -> Self {
+        #[cfg(feature = "verif")]
+        crate::verif::sched::block_until(crate::verif::sched::site::READ_LATCH, || {
+            !lock.is_locked_exclusive()
+        });
         Self(lock.read_arc())
     }
 }
@@ -44,6 +48,10 @@ pub(crate) struct WriteLatch<P>(ArcRwLockWriteGuard<RawRwLock, P>);
 
 impl<P> WriteLatch<P> {
     pub(crate) fn new(lock: &Arc<RwLock<P>>) -> Self {
+        #[cfg(feature = "verif")]
+        crate::verif::sched::block_until(crate::verif::sched::site::WRITE_LATCH, || {
+            !lock.is_locked()
+        });
         Self(lock.write_arc())
     }
 }
@@ -138,6 +146,10 @@ where
     where
         F: FnOnce(&mut [u8]) -> R,
     {
+        #[cfg(feature = "verif")]
+        crate::verif::sched::block_until(crate::verif::sched::site::FRAME_BYTES_MUT, || {
+            !self.inner.is_locked()
+        });
         let mut latch = self.inner.write();
         f(latch.as_mut())
     }
@@ -151,6 +163,10 @@ where
     where
         F: FnOnce(&[u8]) -> R,
     {
+        #[cfg(feature = "verif")]
+        crate::verif::sched::block_until(crate::verif::sched::site::FRAME_BYTES, || {
+            !self.inner.is_locked_exclusive()
+        });
         let latch = self.inner.read();
         f(latch.as_ref())
     }
